@@ -1,5 +1,6 @@
 import BoltonsVerif.Common
 import BoltonsVerif.C17.Model
+import BoltonsVerif.C17.Heap
 /-
 C17 line protocol.  One line = one whole history:   <type> <tok> <tok> ...
 type = oto | m2m | fd ; a token is `/`-separated, objects are natural-number ids,
@@ -11,10 +12,13 @@ oto:  N/<pairs>  NR/<r>/<s>/<kw>  Q/<pairs>  QR/<r>/<s>/<kw>  C/<r>/<s>
 m2m:  N/<pairs>  NR/<r>/<s>  A/<r>/<s>/<k>/<v>  R/<r>/<s>/<k>/<v>  S/<r>/<s>/<k>/<vals>
       D/<r>/<s>/<k>  U/<r>/<s>/<pairs>  UR/<r>/<s>/<r2>/<s2>  P/<r>/<s>/<k>/<nk>
 fd:   B/<fpairs> first, then  Ms/<k>/<fv> Md/<k> Mi/<fpairs> Mu/<fpairs> Mf/<k>/<fv> Mp/<k> Mo Mc
-      H  E/<fpairs>  U/<fpairs>  Y  K/<keys>/<fv>          (fv = h<n> | u<n>; Y = hash, then copy/deepcopy/pickle)
+      H  E/<fpairs>[/<route>]  U/<fpairs>  Y  K/<keys>/<fv>   (fv = h<n> | u<n>; Y = hash, then copy/deepcopy/pickle;
+      route = how the other FrozenDict is reached: ctor fromdict updated updated_all overwrite pickle deepcopy copy)
 
 Output: one record per token joined by `;`.  oto/m2m record: `<ret>|<reg0>|<reg1>…`
 (ret: R- | R<v> | R<k>:<v> | X<ExceptionClass>); every register is dumped after every command.
+m2m records end in `|V<0|1>S<0|1>`: the dump comes from the heap-level machine, V1 = the by-value machine agrees,
+S1 = no set object is shared.
 -/
 namespace C17.Driver
 open BV C17
@@ -148,16 +152,27 @@ def m2mTok? (tok : String) : Option (M2MCmd Nat) :=
     | _, _, _, _ => none
   | _ => none
 
+/-- are all set objects of all instances (both sides) distinct heap cells? -/
+def separated (st : HState Nat) : Bool :=
+  let all := st.regs.flatMap idsI
+  all.eraseDups.length == all.length && all.all (· < st.heap.length)
+
+/-- every m2m history is run on BOTH machines: the heap-level one (set objects with identities, `Heap.lean`)
+    supplies the dump, `V1` says the by-value machine (`Model.lean`) shows exactly the same, `S1` that no set
+    object is referenced from two places -/
 def runM2M (toks : List String) : Option (List String) :=
-  let rec go (regs : List (M2M Nat)) (toks : List String) (acc : List String) : Option (List String) :=
+  let rec go (regs : List (M2M Nat)) (hst : HState Nat) (toks : List String) (acc : List String) : Option (List String) :=
     match toks with
     | [] => some acc.reverse
     | t :: ts => match m2mTok? t with
       | none => none
-      | some c => match m2mCmd regs c with
-        | none => none
-        | some (regs', ret) => go regs' ts (("|".intercalate (showRet ret :: regs'.map dumpM2M)) :: acc)
-  go [] toks []
+      | some c => match m2mCmd regs c, hm2mCmd hst c with
+        | some (regs', ret), some (hst', hret) =>
+          let byValue := "|".intercalate (showRet ret :: regs'.map dumpM2M)
+          let byRef := "|".intercalate (showRet hret :: hst'.abs.map dumpM2M)
+          go regs' hst' ts (s!"{byRef}|V{if byValue = byRef then 1 else 0}S{if separated hst' then 1 else 0}" :: acc)
+        | _, _ => none
+  go [] HState.empty toks []
 
 /-! fd -/
 
@@ -206,24 +221,47 @@ def mut? (parts : List String) : Option Mut :=
   | ["Mc"] => some .clear
   | _ => none
 
+/-- an equal FrozenDict reached along a route (the harness calls `hash()` on every intermediate object) -/
+def fdRoute? (route : String) (ps : List (Nat × FVal)) : Option FD :=
+  match route with
+  | "ctor" => some (FD.ofPairs ps)
+  | "fromdict" => some (FD.ofPairs (putAll [] ps))
+  | "updated" => some (ps.foldl (fun o p => o.hash.1.updated [p]) (FD.ofPairs []))
+  | "updated_all" => some ((FD.ofPairs []).hash.1.updated ps)
+  | "overwrite" => some (ps.foldl (fun o p => o.hash.1.updated [p])
+      (ps.foldl (fun o p => o.hash.1.updated [(p.1, .h 999)]) (FD.ofPairs [])))
+  | "pickle" => some (FD.ofPairs ps).hash.1.rebuild
+  | "deepcopy" => some (FD.ofPairs ps).hash.1.rebuild
+  | "copy" => some (FD.ofPairs ps).hash.1
+  | _ => none
+
+/-- `E…/H…`: equality against `o`, and whether two equal FrozenDicts hash alike -/
+def fdEq (s o : FD) : String :=
+  let eq := dictEq s.items o.items
+  let h := if eq then
+      (match s.hash.2, o.hash.2 with
+       | some a, some b => if a = b then "1" else "0"
+       | none, none => "X"
+       | _, _ => "0")
+    else "-"
+  s!"E{if eq then 1 else 0}/H{h}|{showFItems s.items}"
+
+/-- `T1`: a FrozenDict handed out by `updated()` / `fromkeys()` hashes like a fresh one built from its own items -/
+def derivedOk (u : FD) : String :=
+  if u.hash.2 == (FD.ofPairs u.items.reverse).hash.2 && dictEq u.items (FD.ofPairs u.items.reverse).items then "1" else "0"
+
 def fdTok (s : FD) (tok : String) : Option (FD × String) :=
   let parts := splitOnChar tok '/'
   match parts with
   | ["H"] =>
     let r := s.hash
     some (r.1, (match r.2 with | some _ => "Hok" | none => "XFrozenHashError") ++ "|" ++ showFItems r.1.items)
-  | ["E", ps] => (parseFPairs? ps).map fun ps =>
-    let o := FD.ofPairs ps
-    let eq := dictEq s.items o.items
-    let h := if eq then
-        (match s.hash.2, o.hash.2 with
-         | some a, some b => if a = b then "1" else "0"
-         | none, none => "X"
-         | _, _ => "0")
-      else "-"
-    (s, s!"E{if eq then 1 else 0}/H{h}|{showFItems s.items}")
+  | ["E", ps] => (parseFPairs? ps).map fun ps => (s, fdEq s (FD.ofPairs ps))
+  | ["E", ps, route] => match parseFPairs? ps with
+    | some ps => (fdRoute? route ps).map fun o => (s, fdEq s o)
+    | none => none
   | ["U", ps] => (parseFPairs? ps).map fun ps =>
-    (s, s!"T{showFItems (s.updated ps).items}|{showFItems s.items}")
+    (s, s!"T{showFItems (s.updated ps).items}/T{derivedOk (s.updated ps)}|{showFItems s.items}")
   | ["Y"] =>
     -- the harness calls hash(fd) first, then copies; T = the clone is content-hashed on its own items,
     -- in this interpreter and in one where atoms hash differently
@@ -231,7 +269,7 @@ def fdTok (s : FD) (tok : String) : Option (FD × String) :=
     let ok := s1.cloneHashOwn id id && s1.cloneHashOwn id (fun n => 7 * n + 3)
     some (s1, s!"Y{showFItems s1.rebuild.items}/T{if ok then 1 else 0}|{showFItems s1.items}")
   | ["K", ks, v] => match natList? ks, fval? v with
-    | some ks, some v => some (s, s!"K{showFItems (FD.fromkeys ks v).items}|{showFItems s.items}")
+    | some ks, some v => some (s, s!"K{showFItems (FD.fromkeys ks v).items}/T{derivedOk (FD.fromkeys ks v)}|{showFItems s.items}")
     | _, _ => none
   | _ => (mut? parts).map fun m =>
     let r := s.mutate m
